@@ -192,6 +192,7 @@ class Generator {
       }
     }
     o.a[0] = mock_sel; o.a[1] = fn; o.a[2] = a0; o.a[3] = a1;
+    if (rng_.chance(1, 8)) o.a[5] = 1;   // made from inside a catch block
     if (rng_.below(100) < cfg_.fault_pct) { o.fault = FK_THROW; o.fault_at = rng_.below(4); }
     if (depth < 2 && rng_.below(100) < cfg_.nested_pct) {
       int n = rng_.chance(1, 4) ? 2 : 1;
@@ -240,6 +241,7 @@ class Generator {
       case OP_ABANDON: return mk(k, rng_.below(4));
       case OP_ASSIGN_SEQ: { Op o = mk(k, rng_.below(12), rng_.below(12)); o.a[2] = rng_.below(3); return o; }
       case OP_WIDE: return mk(k, rng_.below(64), rng_.below(50));
+      case OP_DESTROY_MOCK: case OP_DESTROY_SEQ: case OP_DESTROY_WATCHED: { Op o = mk(k, rng_.below(12)); if (rng_.chance(1, 6)) o.a[3] = 1; return o; }   // a[3]: destroyed by stack unwinding
       default: return mk(k, rng_.below(12));
     }
   }
